@@ -44,7 +44,7 @@ CHECKS = {
         category="fault_enumeration",
         engine="E3 (turmoil, separate binary vsim)",
         technique="exhaustive enumeration of fault scripts (hold/release/partition/repair at 16 decision instants, <=1 event quick / <=2 thorough) over the real hyper/h2 client and server on turmoil's simulated network with fixed latency and seeded RNG; every run repeated for reproducibility; workers in child processes",
-        text="Workloads: three sequential requests; two concurrent first requests on a fresh channel; three concurrent requests on a warmed-up connection; one 1 MiB request (multi-chunk bodies); 9 sets of concurrent large replies (45-75 KB together, against the 64 KiB HTTP/2 connection window); 9 variants of typed requests issued while a 20-55 KB raw-body download on the same channel is left unread (replies then start with a short frame and continue after the window update); the sequential and warm-concurrent workloads once more through send_owned. Handler delays 0 / 0.5 s / 3 s, client timeout 2 s or none. For every script and combination each request must return Ok(id*10) for its own id with its payload echo intact, or a ConnectionError/Timeout status, nothing else and no panic; the handler runs at most once per id; with a timeout configured the call returns within 2 s (+5 ms) of simulated time. A simulation that aborts the process is isolated in a child process and reported as a violation.",
+        text="Workloads: three sequential requests; two concurrent first requests on a fresh channel; three concurrent requests on a warmed-up connection; one 1 MiB request (multi-chunk bodies); 9 sets of concurrent large replies (45-75 KB together, against the 64 KiB HTTP/2 connection window); 9 variants of typed requests issued while a 20-55 KB raw-body download on the same channel is left unread (replies then start with a short frame and continue after the window update); the sequential and warm-concurrent workloads once more through send_owned; the warm-concurrent workload once more with one of the three clients of the channel configured with a 15 s timeout. Handler delays 0 / 0.5 s / 3 s, client timeout 2 s or none. For every script and combination each request must return Ok(id*10) for its own id with its payload echo intact, or a ConnectionError/Timeout status, nothing else and no panic; the handler runs at most once per id; with a timeout configured the call returns within 2 s (+5 ms) of simulated time. A simulation that aborts the process is isolated in a child process and reported as a violation.",
         note="turmoil 0.4 model: hold delays, partition drops without retransmission. A request without client timeout that never completes is an allowed outcome. turmoil 0.4's own TcpStream::poll_read panics when a segment does not fit the reader's buffer; scenarios that hit it are counted (<=5% by a guard) and not judged.",
         design="DESIGN.md section 3, C14",
     ),
@@ -68,7 +68,7 @@ CHECKS = {
         category="model_checking",
         engine="E1/E2 Layer B cluster (choice-point exploration by re-execution)",
         technique="stateless exploration of a real in-process cluster: exhaustive operation histories x deviation-bounded enumeration of every environment choice point (per-RPC deliver/lose request/lose reply incl. the requests of mid-history repair exchanges, extra flush/repair/restart events and one 55-minute jump (the history stays within one forgiveness period), a node unreachable until a chosen moment, late flushes, closing order) by re-execution from choice prefixes; plus all await-point interleavings (preemption-bounded) of two concurrent client operations",
-        text="Real nodes (Clock, KeyspaceGroup + actors, in-process RPC services, selector, distributor behind a flush gate, poller one cycle at a time, public ReplicatedStoreHandle) are driven through every history of put/del/put_many/del_many (levels None/All, One in thorough) on 2 keys: quick = N=2 with 2 ops <=2 deviations and 3 ops <=1, N=3 2 ops <=1, MemStore variant, lagging-node block, clock-skew block, faulty-repair blocks (1 op <=4, 2 ops <=2 deviations), an anti-entropy-only block (every direct message and batch lost, 3 ops <=1 deviation), a block with put_many carrying one id twice, 55-minute-jump block, two scripted 'sharp driver' skeletons (a node misses the first operation, 55 minutes pass, it receives the second one, restarts or not) with <=1 deviation on top, concurrency block (two operations, or a repair cycle racing with an operation, fine-grained) with <=3 preemptions (~1 M executions, 13 s); thorough = N=2 up to 4 ops / 3 deviations, N=3 up to 3 ops, every special block deeper, <=4 preemptions. After the closing exchanges (every ordered pair, order itself a choice) and again after late batch flushes all nodes must return the same live documents, equal per id to the locally issued write with the greatest stamp (from the issuers' storage logs); set/store agreement (C02) is a side condition on every node.",
+        text="Real nodes (Clock, KeyspaceGroup + actors, in-process RPC services, selector, distributor behind a flush gate, poller one cycle at a time, public ReplicatedStoreHandle) are driven through every history of put/del/put_many/del_many (levels None/All, One in thorough) on 2 keys: quick = N=2 with 2 ops <=2 deviations and 3 ops <=1, N=3 2 ops <=1, MemStore variant, lagging-node block, clock-skew block, faulty-repair blocks (1 op <=4, 2 ops <=2 deviations), an anti-entropy-only block (every direct message and batch lost, 3 ops <=1 deviation), a block with put_many carrying one id twice, 55-minute-jump block, two scripted 'sharp driver' skeletons (a node misses the first operation, 55 minutes pass, it receives the second one, restarts or not) with <=1 deviation on top, concurrency block (two operations, or a repair cycle racing with an operation, fine-grained) with <=3 preemptions (~1 M executions, 13 s); thorough = N=2 up to 4 ops / 3 deviations, N=3 up to 3 ops, every special block deeper, <=4 preemptions. After the closing exchanges (every ordered pair, order itself a choice) and again after late batch flushes all nodes must return the same live documents, equal per id to the locally issued write with the greatest stamp (from the issuers' storage logs); set/store agreement (C02) is a side condition on every node. The reference (greatest stamp per id among the operations issued) is read from the storage logs; a stamp counts as issued at a node only if it reached that node's storage first (global sequence numbers over all stores), so a stamp altered on the wire is not mistaken for an issued operation.",
         note="Bounded: 2-3 nodes, 2 keys, <=4 operations, <=3 deviations; fixed membership; repair requests are faulted in dedicated N=2 blocks only; the closing exchanges always complete. In-process transport instead of HTTP/2.",
         design="DESIGN.md section 3, C01",
     ),
@@ -76,7 +76,7 @@ CHECKS = {
         category="fault_enumeration",
         engine="E1 Layer B cluster",
         technique="exhaustive enumeration of layouts x issuer x level x operation kind x prior selection x every assignment of {ack, request lost, reply lost, storage failure} to the other nodes, executed through the public store handle on a real in-process cluster",
-        text="5 (quick) / 11 (thorough) layouts of 2-4 nodes in 1-3 data centres (plus 6-, 7-, 8- and 9-node clusters with at most two non-acknowledging nodes), every issuer, all 8 levels, 2/4 operation kinds, fresh and pre-advanced selector cursors, all 6^(N-1) fault assignments ({ack, request lost, reply lost, storage failure, storage failure after the first document of a bulk call, node without the consistency service answering ServiceUnavailable}). At the moment the call returns every node's storage is read: Ok implies the issuer and at least the required number of other nodes (and per-DC majorities) hold the write or a newer one; a consistency error must report exactly the number of replicas that applied the write and had their reply delivered, the local write must be in place, and after the faults clear a batch flush plus a repair round must bring it to every node.",
+        text="5 (quick) / 11 (thorough) layouts of 2-4 nodes in 1-3 data centres (plus 6-, 7-, 8- and 9-node clusters with at most two non-acknowledging nodes), every issuer, all 8 levels, 2/4 operation kinds, fresh and pre-advanced selector cursors, all 6^(N-1) fault assignments ({ack, request lost, reply lost, storage failure, storage failure after the first document of a bulk call, node without the consistency service answering ServiceUnavailable}). At the moment the call returns every node's storage is read: Ok implies the issuer and at least the required number of other nodes (and per-DC majorities) hold the write or a newer one; a consistency error must report exactly the number of replicas that applied the write and had their reply delivered, the local write must be in place, and after the faults clear a batch flush plus a repair round must bring it to every node. After growth: the issuer selects at the level while the cluster has only k of its members (every k), the membership is set to the full layout and the write is issued at once; the requirements are those of the full layout.",
         note="The issuer's own storage does not fail. Selection failures are only checked to be justified (C15 decides selection).",
         design="DESIGN.md section 3, C06",
     ),
@@ -92,7 +92,7 @@ CHECKS = {
         category="model_checking",
         engine="E2, Layer B single node",
         technique="stateless schedule exploration of all await-point interleavings of k concurrent first users of a fresh keyspace on a real node (five real entry paths), and of users of an existing keyspace against the group's real tombstone sweep task, re-execution from choice prefixes",
-        text="k=2 tasks (all 13 combinations of entry paths: group lookup + Set, public put, incoming ConsistencyService RPC, incoming GetState RPC, the node's own repair cycle against a peer holding the keyspace) over ALL interleavings, k=3 up to 2 (quick) / 6 (thorough) deviations, fine-grained mode (one task poll per step). After each execution the set returned by a new lookup must contain every acknowledged id and storage must hold exactly the acknowledged writes. Later uses: with the keyspace existing and the group's real hourly tombstone sweep task due, one or two tasks (four entry paths) interleaved with the sweep's steps one poll at a time (<=3/<=5 deviations); same oracle plus the earlier document must still be in the set.",
+        text="k=2 tasks (all 13 combinations of entry paths: group lookup + Set, public put, incoming ConsistencyService RPC, incoming GetState RPC, the node's own repair cycle against a peer holding the keyspace) over ALL interleavings, k=3 up to 2 (quick) / 6 (thorough) deviations, fine-grained mode (one task poll per step). After each execution the set returned by a new lookup must contain every acknowledged id and storage must hold exactly the acknowledged writes. Later uses: with the keyspace existing and the group's real hourly tombstone sweep task due, one or two tasks (four entry paths) interleaved with the sweep's steps one poll at a time (<=3/<=5 deviations); same oracle plus the earlier document must still be in the set. Two fresh keyspaces: each task makes the first use of its own fresh name (writer x {writer, GetState}, all schedules and fine-grained); each keyspace's set must hold its acknowledged ids.",
         note="Await-point granularity on a current-thread runtime; the property's window lies across awaits.",
         design="DESIGN.md section 3, C18",
     ),
@@ -108,7 +108,7 @@ CHECKS = {
         category="fault_enumeration",
         engine="E1 by replay + crash points, Layer B single node",
         technique="exhaustive crash-point enumeration over request histories on the real keyspace group/actors: after every history and inside every possible next request after each document written by storage; restart = fresh KeyspaceGroup + real load_states_from_storage on the same store, compared with the store's rows",
-        text="Histories over ~35 (quick) / ~65 (thorough) requests on two keyspaces (single and bulk, two ids sharing one stamp as put_many/del_many produce, same id twice, both sources, purge, transient storage failures) are enumerated breadth-first to depth 4/5 (state cap 30 k / 300 k, a cap hit is reported with the depth completed) and deduplicated by the node's whole state. At every crash point the rebuilt sets must hold exactly the live ids, tombstones and stamps storage holds for every keyspace storage lists, keyspaces with rows must be listed, the restarted node must keep agreeing with its store after one more request, every acknowledged request must be durable in storage (the newest acknowledged mutation per id, at that stamp or newer, unless behind the cut-off), and between requests the rebuilt set must accept every pool operation the pre-restart set accepted, for probes within one hour of everything the node has seen (a restart must not make the node refuse repair traffic inside the forgiveness period). Thorough adds file-backed SQLite and LMDB with a real stop (runtime dropped, LMDB worker thread joined, environment closed) and reopen; in-request crash points wait for the storage wrapper's park signal because these backends write on their own thread.",
+        text="Histories over ~35 (quick) / ~65 (thorough) requests on two keyspaces (single and bulk, two ids sharing one stamp as put_many/del_many produce, same id twice, both sources, purge, transient storage failures of single requests, bulk calls failing part-way with a prefix or everything but the first document written) are enumerated breadth-first to depth 4/5 (state cap 30 k / 300 k, a cap hit is reported with the depth completed) and deduplicated by the node's whole state. At every crash point the rebuilt sets must hold exactly the live ids, tombstones and stamps storage holds for every keyspace storage lists, keyspaces with rows must be listed, the restarted node must keep agreeing with its store after one more request, every acknowledged request must be durable in storage (the newest acknowledged mutation per id, at that stamp or newer, unless behind the cut-off), and between requests the rebuilt set must accept every pool operation the pre-restart set accepted, for probes within one hour of everything the node has seen (a restart must not make the node refuse repair traffic inside the forgiveness period). Thorough adds file-backed SQLite and LMDB with a real stop (runtime dropped, LMDB worker thread joined, environment closed) and reopen; in-request crash points wait for the storage wrapper's park signal because these backends write on their own thread.",
         note="Crash granularity = storage call boundaries and 'storage wrote k documents, set not yet updated'. Torn writes inside SQLite/LMDB are not modelled.",
         design="DESIGN.md section 3, C07",
     ),
@@ -124,7 +124,7 @@ CHECKS = {
         category="model_checking",
         engine="E1 Layer A",
         technique="explicit-state enumeration: real diff vs independent reference on all ordered pairs of generator states (incl. purged replicas), diff applied actor-style in both batch orders, re-diff and mutual convergence checked",
-        text="For every ordered pair of replica states of the C03 generators, and of a third family (every set reachable over a 10-operation pool with >1h gaps in any order on both sources, plus purged ones: the rule is stated for all reachable sets), the real OrSWotSet::diff is compared with a reference computed from the two snapshots (this decides 'lists a key exactly when ...'); the difference is applied as the keyspace actor applies a repair, in both batch orders, and the re-computed difference must be empty; both replicas then repair from each other and must expose the same live ids and stamps (the newer per key).",
+        text="For every ordered pair of replica states of the C03 generators, and of a third family (every set reachable over a 12-operation pool with >1h gaps and two pairs of stamps exactly one hour apart - a peer stamp exactly on the cut-off - in any order on both sources, plus purged ones: the rule is stated for all reachable sets), the real OrSWotSet::diff is compared with a reference computed from the two snapshots (this decides 'lists a key exactly when ...'); the difference is applied as the keyspace actor applies a repair, in both batch orders, and the re-computed difference must be empty; both replicas then repair from each other and must expose the same live ids and stamps (the newer per key).",
         note="The actor's batch glue (filter by will_apply at batch start, sort by stamp, source 1) is restated in 12 lines; its agreement with the real actor is checked by C02/C01. Same bounds as C03.",
         design="DESIGN.md section 3, C05",
     ),
